@@ -357,6 +357,12 @@ fn interpret(case: &SeqCase, strict: Strictness, probe_capacity: bool) -> SeqOut
             }
         }
         while let Some(it) = held.pop() { let v = model.held.pop().unwrap(); drop(it); model.unref(v); }
+        if strict && violation.is_none() && !kind.is_arc() && probe_capacity && model.occupied() == 0 && kind.is_multi() && live.is_empty() {
+            // (a Multi without listeners keeps nothing: the probe needs somebody who holds the events)
+            live.push(chan.create_stream());
+            model.listeners.push(MListener { queue: VecDeque::new(), cancelled: false });
+            obs.push("[completion] create".into());
+        }
         if strict && violation.is_none() && !kind.is_arc() && probe_capacity && model.occupied() == 0 {
             // exactly BUFFER_SIZE further events are accepted
             let mut accepted = 0;
@@ -475,8 +481,8 @@ impl Property for C08Reserved {
     fn strategy(&self, _tier: Tier) -> BoxedStrategy<SeqCase> {
         //                                                                 cr dr sd rc ra rl rla rs sr cr ca ln
         prop_oneof![
-            3 => seq_strategy(SeqGen { kinds: &RESERVE_KINDS, configs: &SMALL_CFGS, max_len: 24, origins: true, weights: [1, 0, 3, 3, 2, 2, 1, 6, 5, 3, 0, 1] }),
-            1 => seq_strategy(SeqGen { kinds: &RESERVE_KINDS, configs: &ALL_CFGS, max_len: 120, origins: true, weights: [1, 0, 3, 3, 2, 2, 1, 6, 5, 3, 0, 1] }),
+            3 => seq_strategy(SeqGen { kinds: &RESERVE_KINDS, configs: &SMALL_CFGS, max_len: 24, origins: true, weights: [1, 1, 3, 3, 2, 2, 1, 6, 5, 3, 0, 1] }),
+            1 => seq_strategy(SeqGen { kinds: &RESERVE_KINDS, configs: &ALL_CFGS, max_len: 120, origins: true, weights: [1, 1, 3, 3, 2, 2, 1, 6, 5, 3, 0, 1] }),
         ].boxed()
     }
     fn cases(&self, tier: Tier) -> u32 { match tier { Tier::Quick => 20_000, Tier::Thorough => 500_000 } }
